@@ -125,6 +125,14 @@ Extra ==
                          @@ ("t1" :> <<T(<<60>>), PrintS(Cond(Test(Var("x"), "defined", <<>>, FALSE), LS(<<100>>), LS(<<117>>))),
                                        PrintS(Cond(Test(Var("y"), "defined", <<>>, FALSE), LS(<<100>>), LS(<<117>>))), T(<<62>>), Inc(LS(NT.t3))>>)
                          @@ ("t3" :> <<PrintS(Cond(Test(Var("x"), "defined", <<>>, TRUE), LS(<<117>>), LS(<<100>>)))>>)],
+    \* ignore missing is about the template the tag names: one that exists and itself refers to a missing one fails
+    ignnested |-> [entry |-> "main", fl |-> "",
+                  tp |-> ("main" :> <<T(<<97>>), Include(LS(NT.t1), Lit(Null), FALSE, FALSE, TRUE, FALSE), T(<<98>>)>>) @@ ("t1" :> <<T(<<99>>), Inc(LS(NT.nx)), T(<<100>>)>>)],
+    ignnested2 |-> [entry |-> "main", fl |-> "",
+                  tp |-> ("main" :> <<T(<<97>>), Include(LS(NT.t1), Lit(Null), FALSE, FALSE, TRUE, FALSE), T(<<98>>)>>) @@ ("t1" :> <<T(<<99>>), Inc(LS(NT.t3)), T(<<100>>)>>)
+                         @@ ("t3" :> <<Extends(LS(NT.nx)), Block("bb", <<T(<<101>>)>>)>>)],
+    ignnested3 |-> [entry |-> "main", fl |-> "",
+                  tp |-> ("main" :> <<T(<<97>>), Include(LS(NT.t1), Hash(<<LS(NT.a)>>, <<LI(2)>>), TRUE, TRUE, TRUE, FALSE), T(<<98>>)>>) @@ ("t1" :> <<T(<<99>>), Import(LS(NT.nx), "L"), T(<<100>>)>>)],
     ignmissing |-> [entry |-> "main", fl |-> "",
                   tp |-> ("main" :> <<T(<<97>>), Include(LS(NT.nx), Lit(Null), FALSE, FALSE, TRUE, FALSE), T(<<98>>)>>)] ]
 LoaderLayouts == {"direct", "only", "front", "back", "chain"}
